@@ -1,0 +1,11 @@
+// SPDX-FileCopyrightText: 2026 The Pion community <https://pion.ly>
+// SPDX-License-Identifier: MIT
+
+//go:build !verif
+
+// Package verifhook marks scheduling points for the verification harness.
+// Without the verif build tag the marks are empty.
+package verifhook
+
+// At marks a scheduling point.
+func At(string, any) {}
